@@ -407,12 +407,19 @@ func isStartTLSConn(conn net.Conn) bool {
 //@   ensures __ghost("tagged") == old(__ghost("tagged"))
 //@   ensures c.state == old(c.state)
 
+// APPEND: once the literal has been accepted, the handler never returns
+// without draining it (whatever the back end answered), and after the back end
+// was called it consumes the rest of the command line - otherwise the message
+// bytes would be parsed as commands.
+//
 //@ func (c *Conn) handleAppend(tag string, dec *imapwire.Decoder) (err error)
 //@   props C04:post,pre@call
 //@   requires tag != ""
 //@   ensures err == nil ==> __ghost("tagged") == old(__ghost("tagged"))+1
 //@   ensures err != nil ==> __ghost("tagged") == old(__ghost("tagged")) || __failed("Conn.writeAppendOK")
 //@   ensures c.state == old(c.state)
+//@   ensures __called("Conn.acceptLiteral") && !__failed("Conn.acceptLiteral") ==> __called("Copy")
+//@   ensures err == nil ==> __called("Decoder.ExpectCRLF") && !__failed("Session.Append")
 
 //@ func (c *Conn) handleCopy(tag string, dec *imapwire.Decoder, numKind NumKind) (err error)
 //@   props C04:post,pre@call
